@@ -333,6 +333,40 @@ def check_no_evict_in_half_open(cb, rep, rule):
                         close_fields |= {(x[3], x[2]) for x in tr.walk(e["node"], limit=80) if x[0] == "field" and x[3] and isinstance(x[2], str)
                                          and (x[3] == cb.circuit_adt or x[3].startswith(CRATE)) and _is_counter_field(facts, x[3], x[2])}
     rep.note("closing decision reads %s" % sorted(f_ for (_a, f_) in close_fields))
+    # ... and where the closing decision counts the trial successes itself (`records.iter().filter(|r| ..).count()` instead
+    # of the statistics function), it counts the records that are not failures - all of them: a success that is also slow
+    # is still a success, and a breaker that does not count it stays half-open
+    if rs is not None:
+        nk = 0
+        for (b_, cs, tgt) in cb.transition_calls():
+            if b_ is not rs or tgt != "Closed":
+                continue
+            for e in dominating_edges(tr, rs, cs.bb):
+                if e["kind"] != "bool" or not mentions_field(tr, e["node"], "permitted_calls_in_half_open"):
+                    continue
+                cm_ = cmp_on_edge(tr, e)
+                if cm_ is None:
+                    continue
+                side_ = cm_[2] if mentions_field(tr, cm_[1], "permitted_calls_in_half_open") else cm_[1]
+                # the compared value itself (an alternative of it), not a count inside `total - failures`
+                for x in [peel(y) for y in leaves(peel(side_))]:
+                    if x[0] != "call" or tr.call_of(x).name != "count" or not tr.call_of(x).args:
+                        continue
+                    cc = tr.call_of(x)
+                    src = peel(tr.expand(tr.operand(cc.g.b, cc.args[0], cc.loc)))
+                    if src[0] != "call" or tr.call_of(src).name != "filter" or len(tr.call_of(src).args) < 2:
+                        continue
+                    fc = tr.call_of(src)
+                    gs = _closure_flag_guards(tr, peel(tr.expand(tr.operand(fc.g.b, fc.args[1], fc.loc))))
+                    if gs is None:
+                        continue
+                    nk += 1
+                    fails = sorted(f_ for (f_, lab_) in gs if "fail" in f_)
+                    okk = len(gs) == 1 and bool(fails) and all(lab_ == "false" for (_f, lab_) in gs)
+                    rep.ob(rule, skey(rs, "closing-count#%d" % (nk - 1)), okk, cc.where(),
+                           "the closing decision counts every record that is not a failure" if okk else
+                           "the trial successes the closing decision counts are restricted by %s: successes that are also slow are not "
+                           "counted, so the breaker stays half-open where it must close" % sorted(gs))
     ndec = 0
     for (adt_, f) in sorted(close_fields):
         for (b_, i, j, s_) in field_writes(facts, adt_, f):
@@ -541,13 +575,27 @@ def _closure_flag_guards(tr, clo):
     if cb_ is None:
         return None
     keep = []
+    from ..util import _value_sites
     for (i, j, node) in ret_assigns(tr, cb_):
-        for lf in leaves(node):
+        # `!(a || b)`: the negated value is a join of `true` (under a) and `b` (under !a); judge each side where it is made
+        alts = None
+        st_ = cb_.blocks[i]["stmts"][j] if j is not None and j < len(cb_.blocks[i]["stmts"]) else None
+        if st_ is not None and st_["k"] == "assign" and st_["rv"]["k"] == "unop" and st_["rv"]["op"] == "Not":
+            vs_ = _value_sites(tr, cb_, st_["rv"]["a"], (i, j))
+            if vs_ and len(vs_) > 1:
+                alts = [(bb_, ("unop", "Not", nd_)) for (bb_, _ix, nd_) in vs_]
+        for (at_, lf) in (alts if alts is not None else [(i, x) for x in leaves(node)]):
             lf = peel(lf)
-            if lf[0] == "const" and lf[1] == "false":
+            neg0 = False
+            while lf[0] == "unop" and lf[1] == "Not":
+                neg0 = not neg0
+                lf = peel(lf[2])
+            if lf[0] == "const" and lf[1] == ("true" if neg0 else "false"):
                 continue
+            if neg0:
+                lf = ("unop", "Not", lf)
             gs = set()
-            for e in dominating_edges(tr, cb_, i):
+            for e in dominating_edges(tr, cb_, at_):
                 if e["kind"] == "bool" and e["node"][0] == "field" and isinstance(e["node"][2], str) and "via" not in e:
                     gs.add((e["node"][2], e["label"]))
             neg = False
